@@ -12,7 +12,7 @@
    pipeline is what the repeated loads of the check test. *)
 From Coq Require Import List NArith ZArith Bool String.
 From HV Require Import Base.BSet Base.Bytes Base.Strto Gen.Tables Topo.Dump
-  Text.LinuxParse Text.LinuxParseProofs Text.LinuxParseListProofs.
+  Text.LinuxParse Text.LinuxParseProofs Text.LinuxParseListProofs Text.LinuxNode Text.LinuxNodeProofs Text.LinuxNodeDistinct.
 Import ListNotations.
 Local Open Scope N_scope.
 
@@ -78,3 +78,83 @@ Theorem disallowed_view_checker : forall dflt incl,
   disallowed_check dflt incl = [] <-> disallowed_view dflt incl.
 Proof. exact disallowed_check_correct. Qed.
 Print Assumptions disallowed_view_checker.
+
+
+(* ------------------------------------------------------------------------------------------------------------
+   The memory side of the Linux backend: Text/LinuxNode.v models look_sysfsnode (list_sysfsnode, cpumaps and the
+   overlap rule, distances, HMAT initiators, the CPU-less fix-up, memory-side caches) as a function of the
+   contents of the files and directories it reads, composed with the parser models above.  It is tied request
+   by request to the real backend on every traced load (checks/c18.py).  The theorems hold for EVERY view: any
+   file contents, any directory listing, any configuration.  [Unmodelled] answers (KNL quirk, NVIDIA GPU nodes,
+   indexes too large for the model, the distance over-read) are outside them. *)
+
+(* Totality: the model answers on every view (structural recursion only: no fuel to exhaust), and the cpumap
+   reader it is built on never fails on a file that could be opened (cpumask_parse is total, parse_total). *)
+Theorem node_model_total : forall v,
+  (exists l, linux_node_requests v = Requests l) \/ (exists why, linux_node_requests v = Unmodelled why).
+Proof. intros v. destruct (linux_node_requests v) as [l|why]; [left|right]; eauto. Qed.
+Print Assumptions node_model_total.
+Theorem node_cpumap_reader_total : forall content, exists s, read_mask (Some content) = Some s.
+Proof. intros c. unfold read_mask. destruct (cpumask_parse_total c) as [s ->]. eauto. Qed.
+Print Assumptions node_cpumap_reader_total.
+
+(* Every NUMA request carries the nodeset {os_index}. *)
+Theorem node_numa_nodeset : forall v l pre r post,
+  linux_node_requests v = Requests l -> l = pre ++ r :: post ->
+  r_type r = HWLOC_OBJ_NUMANODE -> r_ns r = bs_single (r_os r).
+Proof. intros v l pre r post H. exact (mchain_ok_numa l pre r post (requests_chain_ok v l H)). Qed.
+Print Assumptions node_numa_nodeset.
+
+(* A MemCache request is immediately followed by the next object down its chain - another MemCache or the NUMA
+   node - which has the same cpuset and nodeset; by induction the chain ends on the NUMA node it fronts (the
+   request list never ends on a MemCache). *)
+Theorem node_memcache_chain : forall v l pre r post,
+  linux_node_requests v = Requests l -> l = pre ++ r :: post -> r_type r = HWLOC_OBJ_MEMCACHE ->
+  exists r' post', post = r' :: post' /\ (r_type r' = HWLOC_OBJ_MEMCACHE \/ r_type r' = HWLOC_OBJ_NUMANODE) /\
+                   r_cs r' = r_cs r /\ r_ns r' = r_ns r.
+Proof. intros v l pre r post H. exact (mchain_ok_memcache l pre r post (requests_chain_ok v l H)). Qed.
+Print Assumptions node_memcache_chain.
+
+(* Whatever the HMAT initiators and the distance-based fix-up of CPU-less nodes do, the cpuset of every request
+   is made of cpumaps of nodes that were created: nothing outside their union is ever assigned. *)
+Theorem node_cpusets_from_created_nodes : forall v l,
+  linux_node_requests v = Requests l ->
+  exists indexes, (l = [] \/ list_nodes v = inl (Some indexes)) /\
+    forall r, In r l -> sub (r_cs r) (created_union (create_nodes v indexes)).
+Proof. exact requests_within_created. Qed.
+Print Assumptions node_cpusets_from_created_nodes.
+
+(* Unless HWLOC_DEBUG_ALLOW_OVERLAPPING_NODE_CPUSETS (or fake NUMA) allows it, the cpumaps of the created nodes
+   are pairwise disjoint: a node whose cpumap meets an earlier one is dropped. *)
+Theorem node_cpumaps_disjoint : forall v indexes,
+  allow_overlap v = 0%Z -> ForallOrdPairs disjoint_slots (create_nodes v indexes).
+Proof. exact create_nodes_disjoint. Qed.
+Print Assumptions node_cpumaps_disjoint.
+
+(* "The os indexes of the NUMA requests are pairwise distinct" is FALSE for hostile directory listings: two entries
+   denoting the same index ("node0", "node00") make list_sysfsnode count two nodes for one bit, the spare slot of
+   the calloc'ed index array reads 0, and node 0 is requested twice when its cpumap is empty. *)
+Theorem node_os_distinct_refuted : exists v a b, linux_node_requests v = Requests [a; b] /\
+  r_type a = HWLOC_OBJ_NUMANODE /\ r_type b = HWLOC_OBJ_NUMANODE /\ r_os a = r_os b.
+Proof. exists dup_view. exact dup_view_requests. Qed.
+Print Assumptions node_os_distinct_refuted.
+
+(* ... and holds whenever the listed indexes are pairwise distinct (always the case for node/online, and for any
+   directory whose entries denote distinct numbers): no two NUMA requests have the same os index. *)
+Theorem node_os_distinct_partial : forall v indexes l,
+  list_nodes v = inl (Some indexes) -> NoDup indexes ->
+  linux_node_requests v = Requests l -> NoDup (numa_os l).
+Proof. exact numa_requests_distinct. Qed.
+Print Assumptions node_os_distinct_partial.
+
+(* The order of the NUMA requests: first the nodes whose cpumap is not empty, in index-array order, then the CPU-less
+   ones, in index-array order ("non-empty cpumap first" of look_sysfsnode), each created node exactly once. *)
+Theorem node_request_order : forall v indexes l,
+  list_nodes v = inl (Some indexes) -> linux_node_requests v = Requests l ->
+  numa_os l = nonzero_os (create_nodes v indexes) ++ zero_os (create_nodes v indexes).
+Proof. exact numa_requests_order. Qed.
+Print Assumptions node_request_order.
+
+Example node_os_distinct_nonvacuous : exists v indexes l,
+  list_nodes v = inl (Some indexes) /\ NoDup indexes /\ linux_node_requests v = Requests l /\ numa_os l = [0; 2; 1].
+Proof. destruct distinct_view_meets as [H1 [H2 [l [H3 H4]]]]. eexists _, _, _. eauto. Qed.
